@@ -79,6 +79,7 @@ func TestHrsim(t *testing.T) {
 			return
 		}
 		wk := newWorker(prop)
+		wk.decode = def.decode
 		wk.explore(def.gen(wk.Tier == "thorough"))
 		wk.minimise(def.decode)
 		code = wk.finish()
